@@ -104,18 +104,18 @@ Section Metric.
   Qed.
 
   Theorem metric_inv_run : forall k ops, Forall OkOp ops ->
-    sinv k metric_entry metric_local metric_msg (run cf (init k) ops).
+    sinv k metric_entry metric_local metric_msg (fun _ => True) (run cf (init k) ops).
   Proof.
     intros k ops Hok.
-    apply (run_sinv cf k metric_entry metric_local metric_msg OkOp); auto; intros;
+    apply (run_sinv cf k metric_entry metric_local metric_msg (fun _ => True) OkOp); auto; intros;
       solve [eapply M_store; eauto | eapply M_fwd; eauto | eapply M_ann; eauto | eapply M_replay; eauto | apply M_local; auto].
   Qed.
 
   Theorem metric_sent : forall k ops o m, Forall OkOp ops -> OkOp o ->
-    In m (snd (fst (step cf (run cf (init k) ops) o))) -> metric_msg m.
+    In m (snd (fst (step cf (run cf (init k) ops) o))) -> is_w (m_adv m) = false -> metric_msg m.
   Proof.
-    intros k ops o m Hok Ho Hin.
-    apply (step_ssent cf k metric_entry metric_local metric_msg OkOp) with (ops := ops) (o := o); auto; intros;
+    intros k ops o m Hok Ho Hin Hw.
+    apply (step_ssent cf k metric_entry metric_local metric_msg (fun _ => True) OkOp) with (ops := ops) (o := o); auto; intros;
       solve [eapply M_store; eauto | eapply M_fwd; eauto | eapply M_ann; eauto | eapply M_replay; eauto | apply M_local; auto].
   Qed.
 End Metric.
@@ -135,10 +135,10 @@ Qed.
 
 (** ... and every frame ever sent makes its receiver record exactly that *)
 Theorem sent_metric_is_base_plus_hops : forall cf k ops o m r,
-  In m (snd (fst (step cf (run cf (init k) ops) o))) -> In r (a_routes (m_adv m)) ->
+  In m (snd (fst (step cf (run cf (init k) ops) o))) -> is_w (m_adv m) = false -> In r (a_routes (m_adv m)) ->
   inc16 (r_metric r) = (r_base r + lenN (a_path (m_adv m))) mod two16.
 Proof.
-  intros cf k ops o m r Hm Hr.
+  intros cf k ops o m r Hm Hw Hr.
   assert (H : metric_msg m).
   { apply (metric_sent cf (fun _ => True) k ops o m); auto. apply Forall_forall. auto. }
   apply H. auto.
@@ -202,10 +202,10 @@ Lemma B_local : forall n k id metric sq now,
 Proof. intros n k id metric sq now Hz. simpl in Hz. unfold base0_entry, base0_local. simpl. auto. Qed.
 
 Theorem base0_inv_run : forall cf k ops, Forall zero_metric_op ops ->
-  sinv k base0_entry base0_local base0_msg (run cf (init k) ops).
+  sinv k base0_entry base0_local base0_msg (fun _ => True) (run cf (init k) ops).
 Proof.
   intros cf k ops Hok.
-  apply (run_sinv cf k base0_entry base0_local base0_msg zero_metric_op); auto; intros;
+  apply (run_sinv cf k base0_entry base0_local base0_msg (fun _ => True) zero_metric_op); auto; intros;
     solve [eapply B_store; eauto | eapply B_fwd; eauto | eapply B_ann; eauto | eapply B_replay; eauto | apply B_local; auto].
 Qed.
 
